@@ -235,20 +235,16 @@ def exact_rows_array(direct, n, nk, nw, D):
 
 
 def project_exact(A, bound, tol=1e-6):
-    """complex array that should consist of cyclotomic integers -> nested lists of 4-lists.
-    ValueError: an entry is not a cyclotomic integer (a finding about the values); MachineryError: it is one, but only with
-    coefficients beyond the bound the harness derived (the harness's bound was wrong, not the code)"""
+    """complex array that should consist of cyclotomic integers -> nested lists of 4-lists.  `bound` (what correct values need)
+    only keeps the search small: if it does not suffice the search is repeated with the largest bound for which the
+    representation is still unique (2 * bound < ~1.4e5: sqrt 3 is badly approximable), and TLC judges the values.
+    ValueError: an entry is not a cyclotomic integer at all (a finding about the values)"""
     try:
         return cy.mat_from_complex(A, bound=bound, tol=tol)
-    except ValueError as e:
-        big = min(8 * bound, 60000)     # uniqueness of the representation needs 2 * bound < ~1.4e5 (sqrt 3 is badly approximable)
-        if big <= bound:
+    except ValueError:
+        if bound >= 60000:
             raise
-        try:
-            cy.mat_from_complex(A, bound=big, tol=tol)
-        except ValueError:
-            raise e
-        raise MachineryError(f"coefficient bound {bound} of the exact projection is too small")
+        return cy.mat_from_complex(A, bound=60000, tol=tol)
 
 
 def cyclo_library_check(rep):
